@@ -361,8 +361,57 @@ def store_resize_complete(ctx, facts, cfg, R='C04.d-split-agreement'):
     if adt and rz:
         fields = [fl['name'] for v in adt['variants'] for fl in v['fields']]
         ws = resetrules.write_sites(facts, rz.path)
+        ftys = {fl['name']: fl['ty'] for v in adt['variants'] for fl in v['fields']}
+        body = rz.body
         for fld in fields:
             hits = [w for w in ws if w[0] == fld and resetrules.on_every_path(rz.body, w[3])]
+            if not hits:
+                # `if self.a == a && self.b == b { return }`: a path that skips the write is fine for a scalar field known to hold
+                # the value that would be assigned, and for the buffer when its new length is a function of such values only
+                hits = resetrules.covered(body, ws, fld, lambda w: True, None)
+            if not hits and (ftys.get(fld) or '').startswith('std::vec::Vec<'):
+                rs = [w for w in ws if w[0] == fld and w[1] == 'call' and re.search(r'Vec::<.*>::resize$', w[2] or '')]
+                if len(rs) == 1:
+                    t = rs[0][6]
+                    need = core.strip_var_ids(body.canon_op(t['args'][1]))
+                    eq_edges, known = set(), set()
+                    SELF = ('deref', ('param', 'self'))
+                    for sb in range(body.n):
+                        tt = body.term(sb)
+                        if tt['k'] != 'switch' or body.blocks[sb]['cleanup']:
+                            continue
+                        c = body.canon_op(tt['discr'])
+                        neg = False
+                        while c[0] == 'un' and c[1] == 'Not':
+                            neg, c = (not neg), c[2]
+                        zero = [tgt for v, tgt in tt['targets'] if v == 0]
+                        if not (c[0] == 'bin' and c[1] in ('Eq', 'Ne') and len(zero) == 1):
+                            continue
+                        a, b2 = core.strip_var_ids(c[2]), core.strip_var_ids(c[3])
+                        for x, other in ((a, b2), (b2, a)):
+                            if x[0] == 'field' and x[1] == SELF and x[2] in fields:
+                                # the field must be assigned exactly this value on the writing path
+                                vals = {repr(core.strip_var_ids(w[2])) for w in ws if w[0] == x[2] and w[1] == 'assign'}
+                                if repr(other) in vals:
+                                    is_eq = (c[1] == 'Eq') != neg
+                                    eq_edges.add(((sb, tt['otherwise']) if is_eq else (sb, zero[0]), repr(other)))
+
+                    def from_known(e, kn):
+                        if repr(e) in kn or (isinstance(e, tuple) and e and e[0] == 'const'):
+                            return True
+                        return isinstance(e, tuple) and e and e[0] == 'bin' and from_known(e[2], kn) and from_known(e[3], kn)
+                    # every successful exit that skips the resize lies behind ALL the equality edges whose values build the length
+                    stop = frozenset([rs[0][3]])
+                    okk = bool(eq_edges)
+                    for ex in resetrules.success_exits(body):
+                        if ex in stop or ex not in body.reachable_from(0, stop=stop):
+                            continue
+                        skip = frozenset((sb_, x_) for sb_ in stop for x_ in body.succs(sb_))      # only the paths that skip the resize
+                        kn = {v for (e, v) in eq_edges if body.edge_dominates(e, ex, removed_edges=skip)}
+                        if not from_known(need, kn):
+                            okk = False
+                    if okk:
+                        hits = rs
             if hits:
                 ctx.ok(R, 'Shards::resize:%s@%s' % (fld, cfg), None)
             else:
